@@ -57,6 +57,119 @@ pub fn draw<R: RecUni>(rng: &mut Rng, ctx: &Ctx) -> ShapeSpec {
     }
 }
 
+/// PCS-level arm: FRI-only pair with fixed honest challenges (see frionly.rs).
+pub fn pcs_arm(ctx: &Ctx, idx: u64, out: &mut RunOut) {
+    use crate::frionly::{FFault, FriOnlyShape, run_case};
+    let mut rng = Rng::new(ctx.seed, "C07-pcs", idx);
+    let uni = if idx % 2 == 0 { "U-KB4" } else { "U-BB4" };
+    let fri = FriShape {
+        log_blowup: *rng.pick(&[1, 2]),
+        log_final_poly_len: *rng.pick(&[0, 0, 1]),
+        max_log_arity: *rng.pick(&[1, 2, 3]),
+        num_queries: *rng.pick(&[1, 2]),
+        commit_pow_bits: *rng.pick(&[0, 1]),
+        query_pow_bits: *rng.pick(&[0, 2]),
+        cap_height: *rng.pick(&[0, 0, 1]),
+    };
+    let nb = rng.range(1, 3);
+    let top = rng.range(fri.log_final_poly_len + 2, ctx.tier.pick(5, 7));
+    let mut batches: Vec<Vec<(usize, usize, usize)>> = Vec::new();
+    for b in 0..nb {
+        let nm = rng.range(1, 3);
+        let mut v = Vec::new();
+        for m in 0..nm {
+            let log_size = if b == 0 && m == 0 { top } else { *rng.pick(&[0, 0, 1, 2, 3, top.saturating_sub(1), top]) }.min(top);
+            v.push((log_size, rng.range(1, 4), rng.range(1, 2)));
+        }
+        batches.push(v);
+    }
+    let shape = FriOnlyShape { universe: uni.to_string(), batches, fri, seed: rng.next_u64() };
+    let none = FFault { kind: "none".into(), path: String::new(), pos: 0 };
+    let base = match run_case(&shape, &none) {
+        Ok(o) => o,
+        Err(e) => {
+            out.count(&format!("pcs_shape_skipped_{}", e.split(|c: char| !c.is_alphanumeric()).find(|x| !x.is_empty()).unwrap_or("x")));
+            return;
+        }
+    };
+    out.evals += 1;
+    out.count("pcs_honest_cases");
+    if out.samples.len() < 2 {
+        out.samples.push(json!({"pcs_level_shape": shape}));
+    }
+    if !(base.native_ok && base.circuit.is_ok()) {
+        out.violate(
+            format!("pcs:honest:native={} circuit={}", base.native_ok, base.circuit.is_ok()),
+            format!("PCS-level honest opening: native {} circuit {:?}", base.native_ok, base.circuit),
+            json!({"pcs_shape": shape, "fault": none}),
+        );
+        return;
+    }
+    let has_const_two_points = shape.batches.iter().flatten().any(|m| m.0 == 0 && m.2 == 2);
+    if has_const_two_points {
+        out.count("pcs_shapes_with_height1_matrix_opened_at_two_points");
+    }
+    let mut plans: Vec<FFault> = (0..base.n_evals).map(|p| FFault { kind: "eval".into(), path: String::new(), pos: p }).collect();
+    plans.extend((0..base.n_index_bits).map(|p| FFault { kind: "index_bit".into(), path: String::new(), pos: p }));
+    for p in 0..base.n_cap_words {
+        if ctx.tier == crate::core::report::Tier::Thorough || rng.chance(1, 4) {
+            plans.push(FFault { kind: "cap".into(), path: String::new(), pos: p });
+        }
+    }
+    for l in &base.proof_leaves {
+        if ctx.tier == crate::core::report::Tier::Thorough || rng.chance(1, 6) {
+            plans.push(FFault { kind: "proof".into(), path: l.clone(), pos: 0 });
+        }
+    }
+    for f in plans {
+        let o = match run_case(&shape, &f) {
+            Ok(o) => o,
+            Err(_) => {
+                out.count("pcs_fault_not_applicable");
+                continue;
+            }
+        };
+        out.evals += 1;
+        out.steps += 1;
+        out.count(&format!("pcs_fired_{}", f.kind));
+        let class = if f.kind == "proof" { crate::tree::path_class(&crate::tree::numeric_leaves(&serde_json::Value::Null).first().cloned().unwrap_or_default()) + &erase_idx(&f.path) } else { f.kind.clone() };
+        out.distinct.insert(crate::core::prng::fnv64(format!("pcs:{uni}:{class}").as_bytes()));
+        let mut bad = if f.kind == "index_bit" { o.circuit.is_ok() } else { o.native_ok != o.circuit.is_ok() };
+        // With a Merkle cap of height > 0 a cap word may belong to an entry no query selects: the
+        // native verifier still rejects (commitments are in its transcript) while the circuit,
+        // run with the honest challenges, legitimately does not look at that entry.
+        let is_cap_word = f.kind == "cap" || class.contains(".cap[]");
+        if bad && is_cap_word && shape.fri.cap_height > 0 && !o.native_ok && o.circuit.is_ok() {
+            out.count("pcs_unselected_cap_entry_not_compared");
+            bad = false;
+        }
+        if bad {
+            out.violate(
+                format!("pcs:{class}:native={} circuit={}", if o.native_ok { "accept" } else { "reject" }, if o.circuit.is_ok() { "accept" } else { "reject" }),
+                format!("PCS-level {f:?}: native {} but in-circuit FRI verifier (honest challenges) {:?}", if o.native_ok { "accepts" } else { "rejects" }, o.circuit),
+                json!({"pcs_shape": shape, "fault": f}),
+            );
+        }
+    }
+}
+
+fn erase_idx(p: &str) -> String {
+    let mut s = String::new();
+    let mut skip = false;
+    for ch in p.chars() {
+        match ch {
+            '[' => {
+                skip = true;
+                s.push_str("[]");
+            }
+            ']' => skip = false,
+            c if !skip => s.push(c),
+            _ => {}
+        }
+    }
+    s
+}
+
 pub fn main(ctx: &Ctx) -> i32 {
     if let Some(path) = &ctx.replay {
         let body: Value = match std::fs::read_to_string(path).ok().and_then(|s| serde_json::from_str(&s).ok()) {
@@ -66,6 +179,27 @@ pub fn main(ctx: &Ctx) -> i32 {
                 return 2;
             }
         };
+        if !body["detail"]["pcs_shape"].is_null() {
+            let shape: crate::frionly::FriOnlyShape = serde_json::from_value(body["detail"]["pcs_shape"].clone()).unwrap();
+            let f: crate::frionly::FFault = serde_json::from_value(body["detail"]["fault"].clone()).unwrap();
+            return match crate::frionly::run_case(&shape, &f) {
+                Ok(o) => {
+                    println!("replay: native_ok={} circuit={:?}", o.native_ok, o.circuit);
+                    let bad = if f.kind == "none" { !(o.native_ok && o.circuit.is_ok()) } else if f.kind == "index_bit" { o.circuit.is_ok() } else { o.native_ok != o.circuit.is_ok() };
+                    if bad {
+                        println!("VIOLATION property={} replay={}", ctx.prop, path.display());
+                        1
+                    } else {
+                        println!("replay did not reproduce");
+                        0
+                    }
+                }
+                Err(e) => {
+                    println!("replay: {e}");
+                    0
+                }
+            };
+        }
         return c01::replay(ctx, &body);
     }
     let runs: u64 = ctx.tier.pick(16, 320);
@@ -84,6 +218,9 @@ pub fn main(ctx: &Ctx) -> i32 {
             c01::run_shape::<crate::rec::kb4::U>(ctx.seed, idx, &spec, ctx.tier, None, &mut out);
         } else {
             c01::run_shape::<crate::rec::bb4::U>(ctx.seed, idx, &spec, ctx.tier, None, &mut out);
+        }
+        for j in 0..ctx.tier.pick(4u64, 8) {
+            pcs_arm(ctx, idx * 16 + j, &mut out);
         }
         let mut d = crate::core::prng::Digest::new();
         d.u64(out.evals);
